@@ -252,6 +252,16 @@ def calibrate(exe, fake, scratch, cpus, tag):
     return int(next(iter(seen)))
 
 
+def expected_ncpu(exe, fake, scratch, cpus, tag):
+    """-> (the value the model is given for num_cpus::get(), the value observed through `-m 0`).
+    Without a cgroup CPU quota num_cpus::get() is the size of the affinity set of the process: that is what the
+    model is given (independent of anthem); with a quota the observed value has to be taken."""
+    seen = calibrate(exe, fake, scratch, cpus, tag)
+    if cgroup_quota() is None:
+        return (len(cpus) if cpus else len(os.sched_getaffinity(0))), seen
+    return seen, seen
+
+
 def cgroup_quota():
     try:
         q = open("/sys/fs/cgroup/cpu.max").read().split()
@@ -290,13 +300,13 @@ def extra(ctx, cfg, results):
             affs["3"] = allcpus[:3]
         if len(allcpus) >= 2:
             affs["1"] = allcpus[-1:]
-        ncpu = {k: calibrate(exe, fake, scratch, v, k) for k, v in affs.items()}
-        quota = cgroup_quota()
+        ncpu = {}
         for k, v in affs.items():
-            want = len(v) if v else len(allcpus)
-            if quota is None and ncpu[k] != want:
-                ctx.violation("num_cpus::get() differs from the size of the CPU affinity set of the process",
-                              {"kind": "custom-cli", "affinity": v, "observed": ncpu[k], "expected": want}, False)
+            ncpu[k], seen = expected_ncpu(exe, fake, scratch, v, k)
+            if seen != ncpu[k]:
+                ctx.violation("`-m 0`: the --cores argument handed to the prover differs from num_cpus::get() = the size of the CPU affinity set of the process",
+                              {"kind": "custom-cli", "affinity": v, "observed": seen, "expected": ncpu[k],
+                               "command": "verify --equivalence strong -n 1 -m 0 a.lp b.lp  (a.lp: `p :- q.`, b.lp: `p :- q, q.`)"}, True)
         dist["options"]["ncpu"] = dict(ncpu)
 
         r0 = clilib.rng(ctx, "tasks")
@@ -838,7 +848,7 @@ def replay(ctx, cfg, r):
         for fn in sorted(os.listdir(pre)):
             probs[fn[:-2]] = open(os.path.join(pre, fn), "rb").read()
         params = dict(job.get("params") or {})
-        params["ncpu"] = calibrate(exe, fake, scratch, params.get("cpus"), "replay")
+        params["ncpu"] = expected_ncpu(exe, fake, scratch, params.get("cpus"), "replay")[0]
         o = run_job(ctx, exe, fake, clilib.empty_path_dir(), scratch,
                     (job["scenario"], (job["task"], job["equivalence"], files, job["flags"]), probs, job["idx"], job["seed"], params))
         print("scenario:", o["scenario"], " instances:", o.get("instances"), " parameters:", {k: v for k, v in params.items()})
